@@ -16,12 +16,15 @@ Sers == {"compact", "flattened", "general"}
 PClasses == {"empty", "one", "b15", "b16", "b17", "k4", "binary", "compressible"}
 
 \* recipient mixes for the general serialization (algorithm per recipient, in the per-recipient header)
-Mixes == {<<"A128KW", "A256KW">>,
-          <<"RSA-OAEP", "A128KW", "ECDH-ES+A128KW">>,
-          <<"PBES2-HS256+A128KW", "A192GCMKW", "ECDH-ES+A256KW", "RSA1_5">>,
-          <<"A128KW", "A128KW", "A128KW">>,
-          <<"dir", "A128KW">>, <<"A128KW", "dir">>, <<"ECDH-ES", "A128KW">>, <<"ECDH-ES", "ECDH-ES">>,
-          <<"ECDH-1PU+A128KW", "ECDH-1PU+A256KW">>, <<"ECDH-1PU", "A128KW">>}
+\* one representative algorithm per non-direct key-management family; every ordered pair of families is a mix
+FamilyReps == {"RSA-OAEP", "A128KW", "A192GCMKW", "PBES2-HS256+A128KW", "ECDH-ES+A128KW", "ECDH-1PU+A128KW"}
+Mixes == {<<a, b>> : a \in FamilyReps, b \in FamilyReps}
+         \cup {<<"RSA-OAEP", "A128KW", "ECDH-ES+A128KW">>, <<"ECDH-ES+A256KW", "RSA1_5", "ECDH-1PU+A256KW">>,
+               <<"PBES2-HS256+A128KW", "A192GCMKW", "ECDH-ES+A256KW", "RSA1_5">>, <<"A128KW", "A128KW", "A128KW">>,
+               <<"ECDH-1PU+A128KW", "A256KW", "ECDH-ES+A192KW">>,
+               \* forbidden: a direct mode with more than one recipient
+               <<"dir", "A128KW">>, <<"A128KW", "dir">>, <<"ECDH-ES", "A128KW">>, <<"ECDH-ES", "ECDH-ES">>, <<"ECDH-1PU", "A128KW">>,
+               <<"ECDH-ES+A128KW", "ECDH-1PU">>}
 
 IsDirect(a) == JweAlgOf(a).mode \in DirectModes
 Is1puKw(a) == JweAlgOf(a).mode = "1pukw"
